@@ -128,7 +128,10 @@ def oracle(r, nwindows=1):
     cells = {(k, l) for k in set(real) | set(both) for l in set(real.get(k, {})) | set(both.get(k, {}))}
     within = all(own.get(k, {}).get(l, 0) <= real.get(k, {}).get(l, 0) <= both.get(k, {}).get(l, 0) for k, l in cells)
     deficit = sum(both.get(k, {}).get(l, 0) - real.get(k, {}).get(l, 0) for k, l in cells)
-    if within and r['alias'] and deficit <= nwindows:
+    # one pending line per aliased bytecode can be dropped at each window close (the slot is per thread and bytecode): with functions an earlier
+    # profiler had padded, several registered bytecodes can each have an unregistered look-alike
+    naliased = r.get('alias_blocks') or len({key.split(':')[0] for key, n in r['alias'].items() if n})
+    if within and r['alias'] and deficit <= nwindows * max(naliased, 1):
         return 'alias', det
     return 'bad', det
 
